@@ -227,6 +227,10 @@ def harness(it, px, params):
     for layout in ('a @ b', '1 @', '@ a', '1@', 'a @@ b'):
         for kind in ('infix', 'prefix', 'postfix'):
             cfgs.append(('R', layout, (kind, True, 'word')))
+    # an operator that is one two-byte character (e.g. a mathematical sign), followed by more input
+    for layout in ('a @ bcd', '@ 169', 'a@ b', '1 @ 2 @ 3'):
+        for kind in ('infix', 'prefix'):
+            cfgs.append(('R', layout, (kind, False, 'mb')))
     k = pick_config(px, 'cfg', len(cfgs))
     fam, p1, p2 = cfgs[k]
     px.notes.append('%s %s %s' % (fam, p1, p2))
@@ -255,12 +259,17 @@ def harness(it, px, params):
             # second character: ASCII punctuation that is not a delimiter, quote, comma or semicolon
             punct = [x for x in range(0x21, 0x7F) if not chr(x).isalnum() and x not in DELIMS and x not in b'"\',;_.']
             px.add(z3.Or([c2 == z3.BitVecVal(x, 8) for x in punct]))
+        elif alpha == 'mb':
+            c3 = px.bv('op3', 8)
+            for c in utf8_constraints([c1, c2, c3], (3,)):
+                px.add(c)
         else:
             for c in (c1, c2):
                 px.add(z3.Or(z3.And(z3.UGE(c, z3.BitVecVal(0x61, 8)), z3.ULE(c, z3.BitVecVal(0x7A, 8))),
                              z3.And(z3.UGE(c, z3.BitVecVal(0x41, 8)), z3.ULE(c, z3.BitVecVal(0x5A, 8)))))
         px.get_model()
-        opname = Str((c1, c2))
+        opb = (c1, c2, c3) if alpha == 'mb' else (c1, c2)
+        opname = Str(opb)
         # the two-character operator must not already be a built-in one (we want a *new* registration)
         for wd in registry_words([]):
             if len(wd) == 2:
@@ -269,7 +278,7 @@ def harness(it, px, params):
         bs = []
         for ch in p1:
             if ch == '@':
-                bs += [c1, c2]
+                bs += list(opb)
             else:
                 bs.append(ord(ch))
         if pre:
@@ -283,7 +292,7 @@ def harness(it, px, params):
         else:
             it.call('register_postfix_op', [opname, H])
         px.cover('registered-' + kind)
-        extra_words = [(c1, c2)]
+        extra_words = [opb]
     px.get_model()
     words = registry_words(extra_words)
     rec = {'family': fam, 'len': len(bs)}
@@ -299,7 +308,7 @@ def harness(it, px, params):
     wit = px.eval_bytes(m, bs)
     rec['witness'] = wit.hex()
     if fam == 'R':
-        rec['op'] = px.eval_bytes(m, [extra_words[0][0], extra_words[0][1]]).hex()
+        rec['op'] = px.eval_bytes(m, list(extra_words[0])).hex()
         rec['reg'] = [p2[0], p2[1]]
     px.cover('fam-' + fam)
     problems = []
